@@ -51,6 +51,15 @@ _SHAPE_MS = MethodSet([
 ])
 
 
+def _YES(x):
+    return True
+
+
+def _NO(x):
+    return False
+
+
+DEPS = [(True, None, None, False), (False, None, True, None), (None, True, None, False), (True, False, None, None), (False, None, None, True)]
 ARITIES = [("one", "req", "opt", "kw"), ("opt", "one", "kw", "req"), ("one", "opt", "one", "opt"), ("kw", "one", "one", "kw"), ("req", "opt", "kw", "one")]
 
 
@@ -182,18 +191,35 @@ def make_run(W, shape, known_active=None):
         if mode == "kw":
             return Signature(types=(t, ("flag", W.cls(pool[(m + 1) % len(pool)]["t"]))), return_type=None, req_pos=1, max_pos=1,
                              req_names=frozenset(), vararg=False, priority=prio(m))
+        if dep and dep[m % len(dep)] is not None:
+            from ovld import Dependent
+            t = Dependent[t, _YES if dep[m % len(dep)] else _NO]
         return Signature(types=(t,), return_type=None, req_pos=1, max_pos=1, req_names=frozenset(), vararg=False,
                          priority=prio(m))
 
+    dep = shape.get("dep")       # per method: None (plain) / True / False (value-dependent, with a condition that always / never holds)
+
     def run_mtm(ctx):
-        def look1(tm, key):
+        def look1(tm, key, inst=None):
             try:
-                return ["ret", tm[key]]
+                fn = tm[key]
             except KeyError as e:
                 grp = e.args[1] if len(e.args) > 1 else ()
-                return ["AMB", sorted(x.handler for x in grp)] if grp else ["NOM"]
+                return ["AMB", sorted(getattr(x.handler, "__name__", x.handler) for x in grp)] if grp else ["NOM"]
+            if not dep:
+                return ["ret", fn]
+            # the table hands out a function that chooses by value: call it
+            try:
+                return ["ret", fn(inst)]
+            except TypeError as e:
+                return ["TypeError", str(e)[:9]]
+            except KeyError as e:      # (the table's own error, raised at call time when no condition holds)
+                grp = e.args[1] if len(e.args) > 1 else ()
+                return ["call-AMB", sorted(getattr(x.handler, "__name__", x.handler) for x in grp)] if grp else ["call-NOM"]
 
         def look(tm, c):
+            if dep:
+                return look1(tm, (W.cls(c),), W.inst[c] if c != W.n else object())
             if not arity:
                 return look1(tm, (W.cls(c),))
             # every call shape the signatures admit: one position, two positions, one position and the keyword
@@ -203,8 +229,18 @@ def make_run(W, shape, known_active=None):
         live = []
         trace = []
         ok = True
+        def hname(m):
+            if not dep:
+                return f"h{m}"
+            if m not in HS:
+                def h(x, _m=m):
+                    return f"h{_m}"
+                h.__name__ = f"h{m}"
+                HS[m] = h
+            return HS[m]
+        HS = {}
         for i, (op, m) in enumerate(ops):
-            tm.register(sig_of(m), f"h{m}")
+            tm.register(sig_of(m), hname(m))
             live.append(m)
             last = i == len(ops) - 1
             sel = shape["probes"][i] if not last else 0
@@ -213,7 +249,7 @@ def make_run(W, shape, known_active=None):
                 got = look(tm, c)
                 ref = MultiTypeMap()
                 for mm in live:
-                    ref.register(sig_of(mm), f"h{mm}")
+                    ref.register(sig_of(mm), hname(mm))
                 exp = look(ref, c)
                 trace.append(dict(after=f"register h{m}", probe=c, got=got, fresh=exp))
                 if got != exp:
@@ -280,7 +316,12 @@ def gen_shapes(tier, seed):
             shapes.append(dict(n=n, api="ovld", linked=True, pool=rng.choice(pools), ops=rng.choice(H4)))
         for _ in range(120):
             shapes.append(dict(n=n, api="mtm", pool=rng.choice(mt_pools), ops=rng.choice(Hm), arity=rng.choice(ARITIES)))
+        for _ in range(120):
+            shapes.append(dict(n=n, api="mtm", pool=rng.choice(mt_pools), ops=rng.choice(Hm), dep=rng.choice(DEPS)))
     else:
+        for p in mt_pools[1::2]:
+            for h in Hm[1::2]:
+                shapes.append(dict(n=n, api="mtm", pool=p, ops=h, dep=rng.choice(DEPS)))
         for p in mt_pools[::2]:
             for h in Hm[::2]:
                 shapes.append(dict(n=n, api="mtm", pool=p, ops=h, arity=rng.choice(ARITIES)))
